@@ -217,6 +217,17 @@ func (w *World) Run() {
 		if atomic.LoadInt32(&w.active) == 0 {
 			return
 		}
+		if canc := w.S.Cancelled(); len(canc) > 0 {
+			for _, r := range canc {
+				if ev := w.S.SettleCancelled(r); ev != nil {
+					w.Stats.Faults["canceled"]++
+					if w.AfterEvent != nil {
+						w.AfterEvent(ev)
+					}
+				}
+			}
+			continue
+		}
 		all := w.S.Pending()
 		if len(all) > w.Stats.MaxPending {
 			w.Stats.MaxPending = len(all)
